@@ -298,7 +298,7 @@ CONDITIONS = [
          smoke=["check_compose(2, 1, 7, 0, 0, 1, [1, 2], True)", "check_compose(2, 11, 0, 0, 5, 1, [1, 2], False)",
                 "check_compose(2, 13, 5, 0, 2, 2, [1, 2], True)", "check_compose(0, 0, 0, 0, 4, 1, [4], False)",
                 "check_compose(2, 14, 9, 0, 3, 1, [4, 6], False)"]),
-    dict(fn="check_reuse", shards=(16, 16), budget=(70, 600),
+    dict(fn="check_reuse", shards=(16, 16), budget=(140, 600),
          smoke=["check_reuse(2, 0, 4, 0, [1, 2], False)", "check_reuse(2, 1, 2, 1, [1, 2], True)",
                 "check_reuse(2, 0, 6, 3, [1, 2, 3], False)", "check_reuse(1, 9, 0, 2, [1, 2], False)"]),
     dict(fn="check_bad_element", shards=(16, 16), budget=(70, 600),
